@@ -387,7 +387,7 @@ func init() {
 	}
 	facet.Register(facet.F[Call]{
 		Prop: "C13", Name: "restype/all",
-		Rule: "function drawn uniformly from all 27, arguments from the in-domain generators biased to empty collections and to mixed list/tuple and map/object forms; non-trivial = reference in domain and (an empty collection is involved, or forms are mixed, or the documented result is structural); distinct = hash of the call JSON",
+		Rule:  "function drawn uniformly from all 27, arguments from the in-domain generators biased to empty collections and to mixed list/tuple and map/object forms; non-trivial = reference in domain and (an empty collection is involved, or forms are mixed, or the documented result is structural); distinct = hash of the call JSON",
 		Quick: 40000, Thorough: 250000, Shards: 4,
 		Gen:   genGroup(allFns, true),
 		Check: func(c *facet.Ctx, in Call) error { return check(c, in, true) },
